@@ -464,6 +464,7 @@ def host_values():
         ipv6.map(lambda h: ('ipv6', h, None)),
         st.sampled_from(['v1.fe80::a+en1', 'vF.x:y', 'v7.a']).map(lambda h: ('ipvfuture', h, None)),
         _exotic_regname.map(lambda h: ('regname_exotic', h, None)),
+        st.sampled_from([4, 5, 20, 1200]).map(lambda n: ('regname', '.'.join(['a' * 63] * n), ['a' * 63] * n)),
     )
     return st.builds(build, hosts, st.one_of(st.none(), st.none(), st.just(''), ports, ports))
 
@@ -471,6 +472,8 @@ def host_values():
 # ------------------------------------------------------------------ Forwarded (RFC 7239)
 
 _obf = st.text(alphabet='abcXYZ019._-', min_size=1, max_size=8).map(lambda s: '_' + s)
+# RFC 7239 puts no bound on the length of an obfuscated identifier (token) - nor RFC 3986 on a reg-name
+_obf_long = st.sampled_from([254, 255, 256, 300, 1024, 70000]).map(lambda n: '_' + ('abcXYZ019.' * (n // 10 + 1))[:n - 1])
 
 
 def nodes():
@@ -485,7 +488,8 @@ def nodes():
 
     name = st.one_of(ipv4.map(lambda h: ('ipv4', h)), ipv4.map(lambda h: ('ipv4', h)),
                      ipv6.filter(lambda h: '%' not in h).map(lambda h: ('ipv6', h)),
-                     st.just(('unknown', 'unknown')), _obf.map(lambda h: ('obfnode', h)))
+                     st.just(('unknown', 'unknown')), _obf.map(lambda h: ('obfnode', h)),
+                     st.integers(0, 5).flatmap(lambda i: _obf_long if i == 0 else _obf).map(lambda h: ('obfnode', h)))
     port = st.one_of(st.none(), st.none(), st.integers(0, 65535).map(str), _obf,
                      st.integers(0, 9).map(lambda i: HUGE_PORT if i == 0 else '0' * i + '80'))
     return st.builds(build, name, port)
